@@ -1,10 +1,11 @@
 (* C16 property theorems: statements only, each closed by [exact]. *)
 From Coq Require Import NArith ZArith List Bool.
 From Coq.Strings Require Import Byte.
-From LV Require Import Lib.Bytes Model.C16_Env Proofs.C16_Env.
+From LV Require Import Lib.Bytes Model.C16_Env Model.C16_Wire Model.C16_Url Model.C16_All
+  Proofs.C16_Env Proofs.C16_Wire Proofs.C16_Url Proofs.C16_All.
 Import ListNotations.
 
-(* ---------- (a) the signature envelope ---------- *)
+(* ================= (a) the signature envelope (base.py Signable, purchase.py) ================= *)
 
 (* Signed (any 20-byte channel hash, any 64-byte signature) or unsigned, over ANY payload bytes:
    from_bytes (to_bytes e) = e. *)
@@ -17,3 +18,170 @@ Theorem C16_envelope_rejects_version : forall (b : byte) (r : bytes),
   b <> x00 -> b <> x01 -> env_decode (b :: r) = EnvVersion.
 Proof. exact env_rejects_version. Qed.
 Print Assumptions C16_envelope_rejects_version.
+
+(* converse direction: bytes that decode to a well-formed envelope are exactly its encoding *)
+Theorem C16_envelope_decode_encode : forall (d : bytes) (e : envelope),
+  env_decode d = EnvOk e -> env_wf e -> env_encode e = d.
+Proof. exact env_decode_encode. Qed.
+Print Assumptions C16_envelope_decode_encode.
+
+(* Claim.from_bytes hands the data to the current decoder exactly when the envelope is accepted
+   (first byte 0 or 1); '{' goes to the JSON decoder and everything else to the v1 decoder *)
+Theorem C16_claim_dispatch : forall d : bytes, claim_format d = FmtV2 <-> exists e, env_decode d = EnvOk e.
+Proof. exact claim_format_v2_iff. Qed.
+Print Assumptions C16_claim_dispatch.
+
+Theorem C16_purchase_roundtrip : forall p : bytes, purchase_decode (purchase_encode p) = Some p.
+Proof. exact purchase_roundtrip. Qed.
+Print Assumptions C16_purchase_roundtrip.
+
+Theorem C16_purchase_rejects : forall d : bytes, (forall r, d <> x50 :: r) -> purchase_decode d = None.
+Proof. exact purchase_rejects. Qed.
+Print Assumptions C16_purchase_rejects.
+
+(* ================= (b) protobuf wire format ================= *)
+Local Open Scope N_scope.
+
+(* every n < 2^64, followed by anything *)
+Theorem C16_varint_roundtrip : forall (n : N) (rest : bytes),
+  n < two64 -> varint_decode (varint_encode n ++ rest) = Some (n, rest).
+Proof. exact varint_roundtrip. Qed.
+Print Assumptions C16_varint_roundtrip.
+
+(* canonical length: k bytes suffice below 128^k, and at least k+1 bytes are used from 128^k on *)
+Theorem C16_varint_length_le : forall (n : N) (k : nat),
+  (1 <= k)%nat -> n < 128 ^ N.of_nat k -> (length (varint_encode n) <= k)%nat.
+Proof. exact varint_length_le. Qed.
+Print Assumptions C16_varint_length_le.
+
+Theorem C16_varint_length_gt : forall (n : N) (k : nat),
+  (k <= 9)%nat -> 128 ^ N.of_nat k <= n -> (k < length (varint_encode n))%nat.
+Proof. exact varint_length_gt. Qed.
+Print Assumptions C16_varint_length_gt.
+
+(* sint32 / int64 views of a varint (Location.latitude/longitude, Stream.release_time) *)
+Theorem C16_zigzag_roundtrip : forall z : Z, zigzag_dec (zigzag_enc z) = z.
+Proof. exact zigzag_roundtrip. Qed.
+Print Assumptions C16_zigzag_roundtrip.
+
+Theorem C16_int64_roundtrip : forall z : Z, (- 2 ^ 63 <= z < 2 ^ 63)%Z ->
+  int64_dec (int64_enc z) = z /\ int64_enc z < two64.
+Proof. exact int64_roundtrip. Qed.
+Print Assumptions C16_int64_roundtrip.
+
+(* flat messages: any list of canonical fields (number 1..2^29-1; varint < 2^64, 8 / 4 byte fixed, or
+   length-delimited bytes) parses back to the same list *)
+Theorem C16_wire_roundtrip : forall fs : list field,
+  forallb field_ok fs = true -> wire_parse (ser_fields fs) = WOk fs.
+Proof. exact wire_roundtrip. Qed.
+Print Assumptions C16_wire_roundtrip.
+
+(* nested messages, for EVERY schema table: a field tree that fits the schema (sub-messages where the
+   schema declares a message, recursively) parses back to itself *)
+Theorem C16_wire_tree_roundtrip : forall (sch : schema) (d : nat) (m : N) (fs : list tfield),
+  tfields_ok sch m fs = true -> (fdepth fs <= d)%nat -> parse_tree sch d m (ser_tree fs) = WOk fs.
+Proof. exact tree_roundtrip. Qed.
+Print Assumptions C16_wire_tree_roundtrip.
+
+(* envelope and message together = Claim / Support to_bytes then from_bytes *)
+Theorem C16_claim_roundtrip : forall (sch : schema) (d : nat) (m : N) (sig : option (bytes * bytes)) (fs : list tfield),
+  sig_wf sig -> tfields_ok sch m fs = true -> (fdepth fs <= d)%nat ->
+  decode_all sch d m (encode_all sig fs) = (EnvOk (mk_env sig (ser_tree fs)), WOk fs).
+Proof. exact all_roundtrip. Qed.
+Print Assumptions C16_claim_roundtrip.
+
+(* without loss: different (signature, fields) never share an encoding *)
+Theorem C16_claim_encode_injective : forall (sch : schema) (d : nat) (m : N) sig1 fs1 sig2 fs2,
+  sig_wf sig1 -> sig_wf sig2 -> tfields_ok sch m fs1 = true -> tfields_ok sch m fs2 = true ->
+  (fdepth fs1 <= d)%nat -> (fdepth fs2 <= d)%nat ->
+  encode_all sig1 fs1 = encode_all sig2 fs2 -> sig1 = sig2 /\ fs1 = fs2.
+Proof. exact encode_all_inj. Qed.
+Print Assumptions C16_claim_encode_injective.
+
+Theorem C16_purchase_message_roundtrip : forall (sch : schema) (d : nat) (m : N) (fs : list tfield),
+  tfields_ok sch m fs = true -> (fdepth fs <= d)%nat ->
+  purchase_decode_all sch d m (purchase_encode_all fs) = Some (WOk fs).
+Proof. exact purchase_all_roundtrip. Qed.
+Print Assumptions C16_purchase_message_roundtrip.
+
+(* ================= (c) URLs ================= *)
+
+(* every well-formed URL value prints to a string that parses back to exactly that value *)
+Theorem C16_url_parse_print : forall u : url, url_wf u -> url_parse (url_print u) = Some u.
+Proof. exact url_parse_print. Qed.
+Print Assumptions C16_url_parse_print.
+
+(* every accepted string prints back as its canonical spelling (scheme added when omitted, '#' as ':'),
+   and its reading is well-formed *)
+Theorem C16_url_print_parse : forall (s : str) (u : url),
+  url_parse s = Some u -> url_print u = canon s /\ url_wf u.
+Proof. exact url_print_parse. Qed.
+Print Assumptions C16_url_print_parse.
+
+(* the parser accepts exactly the sentences of the grammar (stated without reference to the parser), each
+   with its reading -- for ALL strings *)
+Theorem C16_url_grammar : forall (s : str) (u : url), url_parse s = Some u <-> in_grammar s u.
+Proof. exact url_parse_iff. Qed.
+Print Assumptions C16_url_grammar.
+
+Theorem C16_url_rejects : forall s : str, (forall u, ~ in_grammar s u) -> url_parse s = None.
+Proof. exact url_rejects_outside. Qed.
+Print Assumptions C16_url_rejects.
+
+(* ANY string containing, anywhere, a forbidden code point other than the structural : # $ / @ is refused *)
+Theorem C16_url_rejects_forbidden : forall (s : str) (c : N),
+  In c s -> hard_forbidden c = true -> url_parse s = None.
+Proof. exact url_rejects_forbidden. Qed.
+Print Assumptions C16_url_rejects_forbidden.
+
+(* ... in particular trailing garbage such as the newline that the regex used to let through *)
+Theorem C16_url_rejects_trailing_newline : forall s : str, url_parse (s ++ [10]) = None.
+Proof. exact url_rejects_trailing_newline. Qed.
+Print Assumptions C16_url_rejects_trailing_newline.
+
+(* names never contain a forbidden code point, the structural ones included *)
+Theorem C16_url_names_allowed : forall (s : str) (u : url), in_grammar s u ->
+  match u with
+  | UStream g => forallb name_char (seg_name g) = true
+  | UChannel c => forallb name_char (tl (seg_name c)) = true
+  | UChannelStream c g => forallb name_char (tl (seg_name c)) = true /\ forallb name_char (seg_name g) = true
+  end.
+Proof. exact grammar_names_allowed. Qed.
+Print Assumptions C16_url_names_allowed.
+
+(* a stream or channel URL (with or without scheme) whose ':' '#' '$' is followed by anything but 1..40
+   lower-case hex digits resp. [1-9][0-9]* is refused *)
+Theorem C16_url_rejects_bad_modifier : forall (p pre nm : str) (c : N) (x : str),
+  scheme_opt p -> (pre = [] \/ pre = [AT]) -> nm <> [] -> forallb name_char nm = true ->
+  ~ In SLASH x -> bad_modifier c x ->
+  url_parse (p ++ pre ++ nm ++ c :: x) = None.
+Proof. exact url_rejects_bad_modifier. Qed.
+Print Assumptions C16_url_rejects_bad_modifier.
+
+(* ================= non-vacuity ================= *)
+Example C16_ex_env : env_decode (env_encode (Signed (repeat x07 20) (repeat x05 64) [x0a; x00])) =
+                     EnvOk (Signed (repeat x07 20) (repeat x05 64) [x0a; x00]).
+Proof. vm_compute. reflexivity. Qed.
+Example C16_ex_env_wf : env_wf (Signed (repeat x07 20) (repeat x05 64) [x0a; x00]).
+Proof. exact ex_env_wf. Qed.
+Example C16_ex_varint : (varint_encode 300, varint_decode [xac; x02; x07]) = ([xac; x02], Some (300, [x07])).
+Proof. vm_compute. reflexivity. Qed.
+(* message 0 has a sub-message (id 1) at field 1; a tree using it fits, serialises and parses back *)
+Example C16_ex_tree :
+  let sch := [(0, [(1, KMsg 1); (8, KBytes)]); (1, [(2, KBytes); (5, KVarint)])] in
+  let t := [(1, TMsg [(2, TBytes [x61]); (5, TVarint 18446744073709551615)]); (8, TBytes [x68; x69])] in
+  (tfields_ok sch 0 t, fdepth t, parse_tree sch 2 0 (ser_tree t)) = (true, 2%nat, WOk t).
+Proof. vm_compute. reflexivity. Qed.
+(* "lbry://@a#1/b$2"  and its canonical spelling *)
+Example C16_ex_url :
+  let s := [108; 98; 114; 121; 58; 47; 47; 64; 97; 35; 49; 47; 98; 36; 50] in
+  (url_parse s, canon s) =
+  (Some (UChannelStream {| seg_name := [64; 97]; seg_mod := MClaimId [49] |}
+                        {| seg_name := [98]; seg_mod := MAmount [50] |}),
+   [108; 98; 114; 121; 58; 47; 47; 64; 97; 58; 49; 47; 98; 36; 50]).
+Proof. vm_compute. reflexivity. Qed.
+(* "foo\n", "a:g", "a$0" are refused; the hypotheses of the bad-modifier theorem are inhabited *)
+Example C16_ex_reject : (url_parse [102; 111; 111; 10], url_parse [97; 58; 103], url_parse [97; 36; 48]) = (None, None, None).
+Proof. vm_compute. reflexivity. Qed.
+Example C16_ex_bad_modifier : bad_modifier 58 [103] /\ bad_modifier 36 [48].
+Proof. exact bad_modifier_inhabited. Qed.
